@@ -330,7 +330,7 @@ pub fn eval_pub(c: &PubCase) -> CaseOut {
         }
         let payload: Vec<u8> = match c.payload_kind {
             2 => (0..c.payload_len).map(|i| b"az09 /"[i % 6]).collect(),
-            _ => (0..c.payload_len).map(|i| (i % 251) as u8).collect(),
+            _ => (0..c.payload_len).map(|i| ((i * 37 + 11) % 256) as u8).collect(),
         };
         let corr: Option<Vec<u8>> = c.correlate.map(|n| (0..n).map(|i| (255 - i % 256) as u8).collect());
         let spec = Spec::plain(64, c.tx);
